@@ -205,7 +205,7 @@ func RunGME(p *GMEProg) string {
 	}
 	gme.Close()
 	if v, ok := bad.Load("panic"); ok {
-		return "C16|panic in GCPMultiEndpoint workload: " + v.(string)
+		return "C16,C15|panic in GCPMultiEndpoint workload: " + v.(string)
 	}
 	return ""
 }
